@@ -263,6 +263,99 @@ theorem eval_history_pointwise (E : Eval.Engines) (rs : List Eval.Req) (i j : Na
 example : Eval.runHistory ⟨fun d _ => .ok d, fun _ _ => .err⟩ [⟨[1], [0x24], [9]⟩, ⟨[2], [0x2f], [9]⟩, ⟨[1], [0x24], [9]⟩]
     = [some [1, 9], none, some [1, 9]] := by decide
 
+/-! ### 6e (round 5, review H #4). the clause "extracting a result with a JSON-path or XPath selector is deterministic" – PARTIAL
+
+In `Eval.Engines` the two third-party engines are Lean FUNCTIONS, i.e. their determinism is built into
+the type: theorems 6a–6d say what `dataParse` / `genQueryResult` add AROUND the engines (dispatch,
+node loop, append; no state between evaluations), not that ajson / xmlquery are deterministic.  Stated
+honestly: engines as RELATIONS (an evaluation may depend on anything), `dataParse` over them, and the
+clause as functionality of that relation.  Proved: the clause holds iff it holds for the engines
+(`_partial`), and unconditionally on the branches that do not reach an engine.  NOT proved: that the
+real ajson.JSONPath + Unpack + json.Marshal and xmlquery.Parse + Find + OutputXML are functional –
+tested only (query / cq cases: sequential, concurrent, other inputs in between; regenerated facts: no
+package-level state in dosnode, engines called directly). -/
+
+/-- the engines as a program has them: relations between (document, selector) and a result -/
+structure EnginesRel where
+  json : Bytes → Bytes → Eval.Parsed → Prop
+  xml : Bytes → Bytes → Eval.XmlOut → Prop
+
+/-- each engine returns one result per (document, selector) -/
+def EnginesRel.functional (R : EnginesRel) : Prop :=
+  (∀ d s p q, R.json d s p → R.json d s q → p = q) ∧ (∀ d s x y, R.xml d s x → R.xml d s y → x = y)
+
+/-- `dataParse` over relational engines (the dispatch and the node loop of `Eval.dataParse`) -/
+def parsesRel (R : EnginesRel) (doc sel : Bytes) (out : Eval.Parsed) : Prop :=
+  match sel with
+  | [] => out = .ok doc
+  | c :: _ =>
+    if c = 0x24 then R.json doc sel out
+    else if c = 0x2f then
+      ∃ x, R.xml doc sel x ∧ out = (match x with
+        | .nodes ns => .ok (Eval.xmlJoin ns)
+        | .err => .err
+        | .panic => .panic)
+    else out = .ok []
+
+/-- **the full clause** for engines `R`: two evaluations of the same (document, selector) – at any
+member, at any time, concurrently or not – give the same result.  For `R` = the real engines this is
+what C07 says; it is NOT proved (no model of ajson / xmlquery / encoding/json). -/
+def C07_extraction_deterministic_full (R : EnginesRel) : Prop :=
+  ∀ doc sel p q, parsesRel R doc sel p → parsesRel R doc sel q → p = q
+
+/-- **partial**: everything `dataParse` does around the engines preserves determinism – the clause
+holds as soon as the engines themselves are functional (missing: that the real engines are). -/
+theorem extraction_deterministic_partial (R : EnginesRel) (h : R.functional) :
+    C07_extraction_deterministic_full R := by
+  intro doc sel p q hp hq
+  unfold parsesRel at hp hq
+  cases sel with
+  | nil => simp only at hp hq; rw [hp, hq]
+  | cons c rest =>
+    simp only at hp hq
+    by_cases h1 : c = 0x24
+    · simp only [h1, if_true] at hp hq; exact h.1 _ _ _ _ hp hq
+    · simp only [h1, if_false] at hp hq
+      by_cases h2 : c = 0x2f
+      · simp only [h2, if_true] at hp hq
+        obtain ⟨x, hx, rfl⟩ := hp
+        obtain ⟨y, hy, rfl⟩ := hq
+        rw [h.2 _ _ _ _ hx hy]
+      · simp only [h2, if_false] at hp hq; rw [hp, hq]
+
+example : C07_extraction_deterministic_full ⟨fun d _ p => p = .ok d, fun _ _ x => x = .nodes [[1], [2]]⟩ :=
+  extraction_deterministic_partial _ ⟨fun _ _ _ _ hp hq => by rw [hp, hq], fun _ _ _ _ hx hy => by rw [hx, hy]⟩
+
+/-- on the branches that reach no engine (empty selector: the document itself; a selector that is
+neither JSONPath nor XPath: the empty result) the clause holds for ANY engines -/
+theorem extraction_deterministic_without_engines (R : EnginesRel) (doc sel : Bytes)
+    (hs : sel = [] ∨ ∃ c rest, sel = c :: rest ∧ c ≠ 0x24 ∧ c ≠ 0x2f) (p q : Eval.Parsed)
+    (hp : parsesRel R doc sel p) (hq : parsesRel R doc sel q) : p = q := by
+  unfold parsesRel at hp hq
+  rcases hs with rfl | ⟨c, rest, rfl, h1, h2⟩
+  · simp only at hp hq; rw [hp, hq]
+  · simp only [h1, h2, if_false] at hp hq; rw [hp, hq]
+
+example : parsesRel ⟨fun _ _ _ => True, fun _ _ _ => True⟩ [7] [0x5b] (.ok []) := by simp [parsesRel]
+
+/-- the functional model of section 6 is the relational one with functional engines -/
+theorem parsesRel_of_engines (E : Eval.Engines) (doc sel : Bytes) :
+    parsesRel ⟨fun d s p => p = E.json d s, fun d s x => x = E.xml d s⟩ doc sel (Eval.dataParse E doc sel) := by
+  unfold parsesRel Eval.dataParse
+  cases sel with
+  | nil => rfl
+  | cons c rest =>
+    simp only
+    by_cases h1 : c = 0x24
+    · simp [h1]
+    · by_cases h2 : c = 0x2f
+      · simp only [h2, if_true]
+        exact ⟨_, rfl, by cases E.xml doc (0x2f :: rest) <;> rfl⟩
+      · simp [h1, h2]
+
+example : parsesRel ⟨fun d s p => p = (⟨fun d _ => .ok d, fun _ _ => .err⟩ : Eval.Engines).json d s, fun _ _ x => x = .err⟩ [1] [0x24] (.ok [1]) := by
+  simp [parsesRel]
+
 /-! ### 7. from the content to the chain: genSign → dispatchSign → recoverSign → reportQueryResult
 
 `Query.handleQuery` (Model/Query.lean, shared with C01) is the pipeline of one node over abstract
@@ -315,6 +408,10 @@ theorem path_reported_is_signed_minus_address (C : Query.Crypto) (mb : Query.Mem
       simp only [hp, Option.map_some, Option.some.injEq, queryContent] at hc0
       rw [← hcat] at hc0
       rw [List.append_cancel_right hc0]
+
+example : (Query.handleQuery ⟨fun _ _ => .ok [9], fun _ _ => true⟩ 32 20 ⟨[List.replicate 20 7], List.replicate 20 7, fun c => c⟩
+    ⟨.sys, 5, 5, 0, none⟩ []).reports.map (fun r => (r.result.length, r.result ++ List.replicate 20 7 == sysContent 32 5 (List.replicate 20 7)))
+    = [(32, true)] := by decide
 
 /-- **7b. every member signs the identical string**: the content a member signs (and sends to the
 submitter, or keeps when it is the submitter) depends on the member only through the member list:
